@@ -238,7 +238,7 @@ type c04op struct {
 	b    int
 }
 
-const c04NOps = 66
+const c04NOps = 68
 
 func (c *c04) apply(op c04op, client int) bool {
 	r := c.r
@@ -572,6 +572,30 @@ func (c *c04) apply(op c04op, client int) bool {
 				c.addMap(c.mapV[mid].Removed(cls...), fmt.Sprintf("m%d.RemovedClass", mid), mid)
 			}
 
+		// ---- chains of single-key removals / insertions: every intermediate version stays in the pool, so a node that
+		// is converted (hash-array <-> bitmap, collision -> value) is still referenced by the version before it
+		case 66, 67:
+			mid := c.pickFrom(c.maps, op.sel)
+			if mid < 0 {
+				return
+			}
+			nontriv(mid)
+			cur, parent := c.mapV[mid], mid
+			what := "Removed"
+			if k == 67 {
+				what = "Updated"
+			}
+			desc = fmt.Sprintf("chain of 6 single-key %s starting at key %d on map %d (all intermediates kept)", what, op.a, mid)
+			for j := 0; j < 6; j++ {
+				key := (op.a + (2*op.b+1)*j) % 64
+				if k == 66 {
+					cur = cur.Removed(key)
+				} else {
+					cur = cur.Updated(key, 900+j)
+				}
+				parent = c.addMap(cur, fmt.Sprintf("m%d.%s#%d", mid, what, j), parent)
+			}
+
 		// ---- an Option holding a slice / map is decoded over while an older copy of it is still alive
 		case 62:
 			desc = "json.Unmarshal into a variable holding Some(slice) / Some(map); the earlier Option values stay in the pool"
@@ -649,6 +673,9 @@ func (c *c04) newInput(a, b int) {
 
 func execC04(r *sim.Run) {
 	r.Case = "history"
+	// every re-inspection of a lazy list passes the yield hook of fp.Memoize once per cell, so the number of scheduler
+	// steps grows with (events x live values); the default cap is meant for lock-free retry loops, not for this
+	r.MaxSteps = 2000000
 	c := &c04{r: r, seqV: map[int]fp.Seq[int]{}, listV: map[int]fp.List[int]{}, mapV: map[int]fp.Map[int, int]{}, setV: map[int]fp.Set[int]{}, goV: map[int]map[int]int{}}
 	c.h = c03Hasher(r)
 	// arenas with unsorted, partly repeated content so that Sort/Distinct have something to do
@@ -714,7 +741,7 @@ func execC04(r *sim.Run) {
 		return
 	}
 	nClients := r.Range(1, 3, "nClients")
-	nOps := []int{4, 10, 24, 48}[r.Choose(4, "length")]
+	nOps := []int{4, 10, 24, 48, 96}[r.Choose(5, "length")]
 	for cl := 0; cl < nClients; cl++ {
 		cl := cl
 		ops := make([]c04op, nOps/nClients+1)
